@@ -23,10 +23,9 @@ Proof.
 Qed.
 
 Lemma perm_fornum {A} (v : A) D1 D2 D3 DB :
-  Permutation ([v] ++ D1 ++ D2 ++ D3 ++ DB) (D1 ++ D3 ++ D2 ++ v :: DB).
+  Permutation ([v] ++ D1 ++ D2 ++ D3 ++ DB) (D1 ++ D2 ++ D3 ++ v :: DB).
 Proof.
   cbn [app]. eapply Permutation_trans; [apply Permutation_middle|]. apply Permutation_app_head.
-  eapply Permutation_trans; [apply perm_skip; apply Permutation_app_swap_app|].
   eapply Permutation_trans; [apply Permutation_middle|]. apply Permutation_app_head. apply Permutation_middle.
 Qed.
 
@@ -348,17 +347,17 @@ Section Distinct.
         apply perm_fornum.
       + intros flv slv g. cbn [tr_stat].
         specialize (Q1 None flv g). destruct (tr_exp e1 None flv g) as [a1 g1].
-        specialize (Q3 None flv g1). destruct (tr_exp e3 None flv g1) as [a3 g2].
-        specialize (Q2 None flv g2). destruct (tr_exp e2 None flv g2) as [a2 g3].
+        specialize (Q2 None flv g1). destruct (tr_exp e2 None flv g1) as [a2 g2].
+        specialize (Q3 None flv g2). destruct (tr_exp e3 None flv g2) as [a3 g3].
         specialize (Q4 flv (slv + 1)%N g3). destruct (tr_block bk flv (slv + 1)%N g3) as [a4 g4]. cbn [fst] in *.
-        replace (APush :: a1 ++ a3 ++ a2 ++ AAdd (param_var n vl) :: a4 ++ [APop])
-          with (APush :: (a1 ++ a3 ++ a2 ++ [AAdd (param_var n vl)] ++ a4) ++ [APop]) by (rewrite <- !app_assoc; reflexivity).
+        replace (APush :: a1 ++ a2 ++ a3 ++ AAdd (param_var n vl) :: a4 ++ [APop])
+          with (APush :: (a1 ++ a2 ++ a3 ++ [AAdd (param_var n vl)] ++ a4) ++ [APop]) by (rewrite <- !app_assoc; reflexivity).
         rewrite rlocs_scope, !rlocs_app. cbn [rlocs flat_map app].
         eapply IL_widen; [|exact H2|exact H3].
         assert (T : IL (hi W vl) (hi W l) (rlocs a1 ++ rlocs a2 ++ rlocs a3 ++ rlocs a4)).
         { apply (IL_seq _ c1 _); auto; try lia. apply (IL_seq _ c2 _); auto; try lia. apply (IL_seq _ c3 _); auto. }
         eapply IL_widen; [|exact (Z.le_trans _ _ _ Ha (Z.lt_le_incl _ _ Hlt))|apply Z.le_refl].
-        eapply IL_perm; [|exact T]. apply Permutation_app_head. apply Permutation_app_swap_app.
+        eapply IL_perm; [|exact T]. apply Permutation_refl.
     - (* SForIn *) intros ns ls es bk l IHe IHb Hf a b Hch. cbn [frag_stat LS.m_stat] in *. bs Hf.
       rewrite !app_assoc in Hch. destruct (chain_region W _ _ _ _ Hch) as [_ [H2 [H3 H4]]].
       rewrite <- !app_assoc in H4.
